@@ -2,7 +2,9 @@
 
 Obligations : coq/Props/C18.v (split partition / sizes / pairing / order, floor rule range on rationals and on the binary64
               product (Flocq), loader batches / re-iterability / transform, one-hot unit vectors; model State/Data.v)
-Ties        : K  split_dataset on every (n <= 12, fraction grid, val grid, shuffle off / seeds) vs the model, exactly
+Ties        : T  lib/py2coq/gen_sigs.py regenerates Gen/GenDataSigs.v (signatures incl. parameter order, DataLoader state) — obligation
+                 data_signatures_documented; self-check against inspect.signature
+              K  split_dataset on every (n <= 12, fraction grid, val grid, shuffle off / seeds) vs the model, exactly
               K  DataLoader event histories (for loops, abandoned loops, interleaved iterators, len, indexing) for
                  every n <= 12 and batch size 1..n+2, with and without a recording transform, vs the model
               K  one_hot_encode on every short label list over a small alphabet + random label lists vs the model
@@ -80,17 +82,51 @@ def read_perm(n, seed):
     return idx
 
 
-def run_split_impl(n, f, vf, seed, y_short=0):
-    """returns ('ok', (train, test, val)) with each set (ids, labels) or ('raise', type)"""
+SHUFFLE_FALSY = ["False", "np.False_", "0"]
+SHUFFLE_TRUTHY = ["True", "np.True_", "1"]
+SHUFFLE_COQ = {"False": "SBool false", "np.False_": "SNpBool false", "0": "SInt 0",
+               "True": "SBool true", "np.True_": "SNpBool true", "1": "SInt 1"}
+
+
+def shuffle_value(sform):
+    np = _impl().np
+    return {"False": False, "np.False_": np.bool_(False), "0": 0, "True": True, "np.True_": np.bool_(True), "1": 1}[sform]
+
+
+def fraction_value(f, fform):
+    np = _impl().np
+    if f is None:
+        return None
+    if fform == "int" and float(f) in (0.0, 1.0):
+        return int(f)
+    if fform == "np.float64":
+        return np.float64(f)
+    return float(f)
+
+
+def rng_seed(n, seed):
+    """the seed put into NumPy's global generator before the call (also when shuffle is falsy: the model must ignore it)"""
+    return seed if seed is not None else 4242 + n
+
+
+def run_split_impl(n, f, vf, seed, y_short=0, sform=None, call="kw", fform="float"):
+    """seed None = a falsy shuffle argument, else truthy.  returns ('ok', (train, test, val)) with each set (ids, labels) or ('raise', type)"""
     np = _impl().np
     D = _data()
     X, y = make_xy(n)
     if y_short:
         y = y[:max(0, n - y_short)]
-    if seed is not None:
-        np.random.seed(seed)
+    if sform is None:
+        sform = "False" if seed is None else "True"
+    assert (sform in SHUFFLE_TRUTHY) == (seed is not None)
+    sh = shuffle_value(sform)
+    fa, va_ = fraction_value(f, fform), fraction_value(vf, fform)
+    np.random.seed(rng_seed(n, seed))
     try:
-        tr, te, va = D.split_dataset(X, y, test_split=f, val_split=vf, shuffle=seed is not None)
+        if call == "pos":
+            tr, te, va = D.split_dataset(X, y, fa, va_, sh)
+        else:
+            tr, te, va = D.split_dataset(X, y, test_split=fa, val_split=va_, shuffle=sh)
     except Exception as ex:
         return ("raise", type(ex).__name__)
     conv = lambda d: None if d is None else (x_ids(d[0]), y_vals(d[1]))
@@ -148,12 +184,12 @@ def set_coq(s):
     return "(%s, %s)" % (zlist(s[0]), zlist(s[1]))
 
 
-def split_case_coq(n, kt, kv, perm, res, y_short=0):
+def split_case_coq(n, kt, kv, sform, perm, res, y_short=0):
     X, y = make_xy(n)
     if y_short:
         y = y[:max(0, n - y_short)]
-    inp = "(%s, %s, %s, %s, %s)" % (zlist([int(r[0]) for r in X]), zlist([int(v) for v in y]), cn(kt),
-                                    copt(kv, cn), copt(perm, lambda p: clist([cn(i) for i in p])))
+    inp = "(%s, %s, %s, %s, %s, %s)" % (zlist([int(r[0]) for r in X]), zlist([int(v) for v in y]), cn(kt),
+                                        copt(kv, cn), SHUFFLE_COQ[sform], clist([cn(i) for i in perm]))
     if res[0] == "ok":
         tr, te, va = res[1]
         bad = any(isinstance(v, str) for s in (tr, te, va) if s is not None for v in s[0])
@@ -167,9 +203,9 @@ SPLIT_EVAL = """
 Definition flat (r : option (split_result Z Z)) :=
   match r with Some r => Some (s_train r, s_test r, s_val r) | None => None end.
 Definition res_eqb := option_eqb (pair_eqb (pair_eqb zz_eqb zz_eqb) (option_eqb zz_eqb)).
-Definition runc (c : list Z * list Z * nat * option nat * option (list nat)) :=
-  let '(X, y, kt, kv, perm) := c in flat (split_dataset X y kt kv perm).
-Definition cases : list ((list Z * list Z * nat * option nat * option (list nat)) *
+Definition runc (c : list Z * list Z * nat * option nat * shuffle_arg * list nat) :=
+  let '(X, y, kt, kv, a, perm) := c in flat (split_dataset_a X y kt kv a perm).
+Definition cases : list ((list Z * list Z * nat * option nat * shuffle_arg * list nat) *
                          option ((list Z * list Z) * (list Z * list Z) * option (list Z * list Z))) :=
  [%s].
 Eval vm_compute in (mismatches runc res_eqb cases).
@@ -224,9 +260,10 @@ def part_split(ctx):
         for f in extra_f + [Fraction(3, 20), Fraction(11, 20)]:
             cases.append((n, f, rng.choice(extra_f + [None]), rng.choice([None, 7])))
     rows, recs, oracle_fail = [], [], []
+    form_stats = {}
     float_vs_rational = []
     nontrivial = set()
-    for (n, f, vf, seed) in cases:
+    for c, (n, f, vf, seed) in enumerate(cases):
         ff = float(f)
         vff = None if vf is None else float(vf)
         kt = float_floor(ff, n)
@@ -235,22 +272,32 @@ def part_split(ctx):
             float_vs_rational.append({"fraction": str(f), "n": n, "float_rule": kt, "exact_rational": int(math.floor(f * n))})
         if vf is not None and kv != math.floor(vf * (n - kt)):
             float_vs_rational.append({"fraction": str(vf), "n": n - kt, "float_rule": kv, "exact_rational": int(math.floor(vf * (n - kt)))})
-        perm = None if seed is None else read_perm(n, seed)
-        res = run_split_impl(n, ff, vff, seed)
+        # argument and call forms cycle over the grid: shuffle in {False, np.bool_(False), 0} / {True, np.bool_(True), 1},
+        # positional / keyword call, fractions as float / int (0, 1) / np.float64
+        cell, j = divmod(c, len(seeds))          # grid cell (n, f, vf) and position in the seed list
+        sform = (SHUFFLE_FALSY if seed is None else SHUFFLE_TRUTHY)[(cell + j) % 3]
+        call = ["kw", "pos"][(cell // 3 + j) % 2]
+        fform = ["float", "int", "np.float64"][(cell // 2) % 3]
+        perm = read_perm(n, rng_seed(n, seed))        # what the global generator WOULD produce; ignored by the model when falsy
+        res = run_split_impl(n, ff, vff, seed, sform=sform, call=call, fform=fform)
         v = judge_split(n, ff, vff, seed, res)
+        form_stats[(sform, call, fform)] = form_stats.get((sform, call, fform), 0) + 1
         if v:
-            oracle_fail.append(((n, ff, vff, seed), res, v))
-        rows.append(split_case_coq(n, kt, kv, perm, res))
-        recs.append({"n": n, "test_split": ff, "val_split": vff, "shuffle_seed": seed, "k_test": kt, "k_val": kv,
-                     "permutation": perm, "implementation": res})
+            oracle_fail.append(((n, ff, vff, seed, sform, call, fform), res, v))
+        rows.append(split_case_coq(n, kt, kv, sform, perm, res))
+        recs.append({"n": n, "test_split": ff, "val_split": vff, "shuffle_seed": seed, "shuffle_argument": sform, "call": call,
+                     "fraction_form": fform, "k_test": kt, "k_val": kv, "generator_permutation": perm, "implementation": res})
         if 0 < kt < n or (kv or 0) > 0:
-            nontrivial.add((n, kt, kv, tuple(perm) if perm else None))
+            nontrivial.add((n, kt, kv, tuple(perm) if seed is not None else None, sform, call))
     ctx.sample(recs[len(recs) // 3])
     mism = coq_compare(ctx, "split", SPLIT_EVAL, rows, lambda i: recs[i])
     ctx.tie("split_dataset/grid", "correspondence", len(cases), len(nontrivial), mism, exhaustive=True,
             note="every n<=12 x 21 test fractions x %d val settings x shuffle off/%d seeds (permutation read back by seeding NumPy identically), "
-                 "plus %d larger cases; sizes passed to the model are floor(float(f)*n) as in the code; non-trivial = distinct (n,k_test,k_val,perm) with a non-empty proper split"
+                 "plus %d larger cases; argument forms cycle over the grid: shuffle in {False, np.bool_(False), 0 | True, np.bool_(True), 1}, positional / keyword call, "
+                 "fractions as float / int / np.float64 (NumPy's generator is seeded in every case; the model ignores the permutation when the argument is falsy); "
+                 "sizes passed to the model are floor(float(f)*n) as in the code; non-trivial = distinct (n,k_test,k_val,perm,forms) with a non-empty proper split"
                  % (len(vgrid), len(seeds) - 1, 24))
+    ctx.extra["split_argument_forms"] = {"%s/%s/%s" % k: v for k, v in sorted(form_stats.items())}
     # dedupe the float/rational survey
     seen = set()
     fr = []
@@ -280,7 +327,7 @@ def part_malformed(ctx):
             for f in (0.0, 0.5, 1.0):
                 res = run_split_impl(n, f, None, None, y_short=short)
                 kt = float_floor(f, n)
-                rows.append(split_case_coq(n, kt, None, None, res, y_short=short))
+                rows.append(split_case_coq(n, kt, None, "False", list(range(n)), res, y_short=short))
                 recs.append({"n": n, "labels": n - short, "test_split": f, "implementation": res})
     mism = coq_compare(ctx, "malformed", SPLIT_EVAL, rows, lambda i: recs[i])
     raised = sum(1 for r in recs if r["implementation"][0] == "raise")
@@ -311,12 +358,22 @@ class RecTransform:
         return out
 
 
-def run_loader_impl(n, b, with_tr, events):
-    """events: ('iter',) ('next',h) ('len',) ('get',i).  Returns (outputs, transform_log)."""
+def run_loader_impl(n, b, with_tr, events, call="kw"):
+    """events: ('iter',) ('next',h) ('len',) ('get',i).  Returns (outputs, transform_log).
+    call: how the constructor is called — 'kw' DataLoader(X, y, b, transform=tr); 'pos' DataLoader(X, y, b, tr) (documented order);
+    'allkw' DataLoader(X=.., y=.., batch_size=.., transform=..); without a transform 'pos' is DataLoader(X, y, b)."""
     D = _data()
     X, y = make_xy(n)
     tr = RecTransform() if with_tr else None
-    L = D.DataLoader(X, y, b, transform=tr)
+    try:
+        if call == "pos":
+            L = D.DataLoader(X, y, b, tr) if with_tr else D.DataLoader(X, y, b)
+        elif call == "allkw":
+            L = D.DataLoader(X=X, y=y, batch_size=b, transform=tr)
+        else:
+            L = D.DataLoader(X, y, b, transform=tr)
+    except Exception as ex:
+        return [("raise", type(ex).__name__) for _ in events], []
     handles = []
     outs = []
     for e in events:
@@ -453,25 +510,28 @@ def part_loader(ctx):
     distinct = set()
     for n in range(0, 13):
         for b in range(1, n + 3):
-            for with_tr in (False, True):
+            for with_tr, call in ((False, "pos" if (n + b) % 2 else "allkw"), (True, "kw"), (True, "pos")):
                 for name, events in loader_histories(n, b, rng, ctx.quick):
-                    outs, log = run_loader_impl(n, b, with_tr, events)
+                    if (with_tr, call) == (True, "pos") and name in ("random", "len;get") and ctx.quick:
+                        continue
+                    outs, log = run_loader_impl(n, b, with_tr, events, call)
                     v = judge_loader(n, b, with_tr, name, events, outs, log)
                     if v:
-                        oracle_fail.append(((n, b, with_tr, name, events), (outs, log), v))
+                        oracle_fail.append(((n, b, with_tr, name, events, call), (outs, log), v))
                     X, y = make_xy(n)
                     inp = "(%s, %s, %s, %s, %s)" % (zlist([int(r[0]) for r in X]), zlist([int(v_) for v_ in y]), cn(b), cb(with_tr),
                                                     clist([ev_coq(e) for e in events]))
                     logc = clist(["(%s, %s)" % (zlist(a), zlist(c)) for a, c in log]) if not any(isinstance(v_, str) for a, c in log for v_ in a) else "[([], [])] (* torn *)"
                     rows.append("(%s, (%s, %s))" % (inp, clist([out_coq(o) for o in outs]), logc))
-                    recs.append({"n": n, "batch_size": b, "transform": with_tr, "history": name,
+                    recs.append({"n": n, "batch_size": b, "transform": with_tr, "constructor_call": call, "history": name,
                                  "events": [ev_coq(e) for e in events], "implementation_outputs": outs, "transform_log": log})
                     if n // b >= 1:
-                        distinct.add((n, b, with_tr, tuple(events)))
+                        distinct.add((n, b, with_tr, call, tuple(events)))
     ctx.sample(next(r for r in recs if r["n"] == 7 and r["batch_size"] == 3 and r["history"].startswith("outer")))
     mism = coq_compare(ctx, "loader", LOADER_EVAL, rows, lambda i: recs[i])
     ctx.tie("DataLoader/event-histories", "correspondence", len(rows), len(distinct), mism, exhaustive=True,
-            note="every n<=12 x batch size 1..n+2 x transform None/recording x {for, for;for, abandoned;for, interleaved, len/indexing, random}; "
+            note="every n<=12 x batch size 1..n+2 x {no transform (positional / all-keyword constructor), recording transform passed by keyword, recording transform "
+                 "passed POSITIONALLY as the 4th argument} x {for, for;for, abandoned;for, interleaved, len/indexing, random}; "
                  "outputs of every event and the transform's call log compared; non-trivial = at least one full batch")
     # malformed: batch size 0
     mrows, mrecs = [], []
@@ -532,12 +592,14 @@ def make_labels(labels, form, scale):
     raise AssertionError(form)
 
 
-def run_onehot_impl(labels, form, scale):
+def run_onehot_impl(labels, form, scale, call="pos", arg=None):
+    """arg: an explicit container (float label sets); else built from (labels, form, scale)"""
     np = _impl().np
     D = _data()
-    arg = make_labels(labels, form, scale)
+    if arg is None:
+        arg = make_labels(labels, form, scale)
     try:
-        out = D.one_hot_encode(arg)
+        out = D.one_hot_encode(y=arg) if call == "kw" else D.one_hot_encode(arg)
         out = np.asarray(out)
         if out.size == 0:
             return ("ok", [] if len(labels) == 0 else [[] for _ in labels])
@@ -546,6 +608,76 @@ def run_onehot_impl(labels, form, scale):
         return ("ok", [[int(v) for v in row] for row in out])
     except Exception as ex:
         return ("raise", type(ex).__name__)
+
+
+# ---- float labels: exact, order-preserving integer keys (the model's labels are integers) ----------------
+def float_key(x):
+    """binary64 -> Z, strictly monotone on the non-NaN floats, +0.0 and -0.0 both 0 (they are equal labels)"""
+    import struct
+    x = float(x)
+    assert x == x, "NaN label"
+    if x == 0.0:
+        return 0
+    bits = struct.unpack(">q", struct.pack(">d", abs(x)))[0]
+    return bits if x > 0 else -bits
+
+
+FLOAT_FORMS = ["list", "f64", "f32", "col-f64", "col-f32", "nested"]
+
+
+def make_float_labels(vals, form):
+    """returns (container, labels as the implementation sees them (python floats))"""
+    np = _impl().np
+    if form in ("f32", "col-f32"):
+        a = np.array(vals, dtype=np.float32)
+        seen = [float(v) for v in a]
+        return (a.reshape(-1, 1) if form == "col-f32" else a), seen
+    seen = [float(v) for v in vals]
+    if form == "list":
+        return list(seen), seen
+    if form == "nested":
+        return [[v] for v in seen], seen
+    a = np.array(seen, dtype=np.float64)
+    return (a.reshape(-1, 1) if form == "col-f64" else a), seen
+
+
+def float_label_sets(rng, quick):
+    """close-but-distinct float labels: adjacent large ids, adjacent float32 / float64 values, tiny and subnormal labels,
+    negative floats, mixed magnitudes"""
+    np = _impl().np
+    sets = [
+        [250001.0, 250002.0, 250001.0, 250003.0],
+        [16777214.0, 16777215.0, 16777216.0, 16777214.0],          # adjacent float32-exact ids near 2^24
+        [1.0, float(np.nextafter(np.float32(1.0), np.float32(2.0))), 1.0, float(np.nextafter(np.float32(1.0), np.float32(0.0)))],
+        [1.0, float(np.nextafter(1.0, 2.0)), float(np.nextafter(1.0, 0.0)), 1.0],
+        [0.1, float(np.nextafter(0.1, 1.0)), 0.1 + 0.2, 0.3],
+        [0.0, 1e-9, 2e-9, 5e-9, 1e-9, -1e-9],
+        [5e-324, 1e-323, 0.0, 5e-324],
+        [1e-310, 2e-310, 1e-310, -0.0, 0.0],
+        [1e-40, 2e-40, 1e-45, 0.0],                                 # float32 subnormals
+        [-250001.0, -250002.0, -250001.5, -250001.0],
+        [-1e-9, 1e-9, -2e-9, 0.0],
+        [1e12, 1e12 + 1, -3.5, 1e-9, 0.25, 1e12],
+        [3.0e38, 3.0000001e38, -3.0e38, 1.0],
+        [1000000.0, 1000001.0, 999999.0, 1000000.5, 1000001.0],
+        [0.5, 0.25, 0.75, 0.5],
+    ]
+    for _ in range(25 if quick else 150):
+        k = rng.randint(-12, 12)
+        base = rng.choice([1.0, 2.5, 7.0, 9.999]) * 10.0 ** k * rng.choice([1, -1])
+        f32 = rng.random() < 0.5
+        pool = [base]
+        for _ in range(rng.randint(1, 4)):
+            x = pool[-1]
+            for _ in range(rng.randint(1, 3)):
+                x = float(np.nextafter(np.float32(x), np.float32(np.inf))) if f32 else float(np.nextafter(x, np.inf))
+            pool.append(x)
+        if rng.random() < 0.3:
+            pool.append(-pool[0])
+        if rng.random() < 0.3:
+            pool.append(0.0)
+        sets.append([rng.choice(pool) for _ in range(rng.randint(2, 9))])
+    return sets
 
 
 def judge_onehot(labels, res):
@@ -595,8 +727,8 @@ def part_onehot(ctx):
         cases.append((labs, "width2-array", 1))
     rows, recs, oracle_fail = [], [], []
     distinct = set()
-    for labs, arr, scale in cases:
-        res = run_onehot_impl(labs, arr, scale)
+    for ci, (labs, arr, scale) in enumerate(cases):
+        res = run_onehot_impl(labs, arr, scale, call="kw" if ci % 3 == 2 else "pos")
         v = judge_onehot(labs, res) if arr != "width2-array" else None
         if v:
             oracle_fail.append(((labs, arr, scale), res, v))
@@ -618,6 +750,30 @@ def part_onehot(ctx):
             note="every list of length <= 4 over {-1,0,2} + random lists (negative, unsorted, repeated, float quarters mapped to integers by x4), "
                  "each in the four container forms list (n,), ndarray (n,), column ndarray (n,1), nested list [[l],..] (read row by row); "
                  "3 malformed width-2 containers (raise / None); non-trivial = (labels, container) with >= 2 distinct labels, not already sorted")
+    # ---- float label sets with close-but-distinct values (exact equality is the property; no tolerance)
+    frows, frecs = [], []
+    fdistinct = set()
+    for si, vals in enumerate(float_label_sets(rng, ctx.quick)):
+        for fi, form in enumerate(FLOAT_FORMS):
+            arg, seen = make_float_labels(vals, form)
+            res = run_onehot_impl(seen, form, 1, call="kw" if (si + fi) % 4 == 3 else "pos", arg=arg)
+            v = judge_onehot(seen, res)
+            if v:
+                oracle_fail.append(((seen, form, "float"), res, v))
+            keys = [float_key(x) for x in seen]
+            good = res[0] == "ok" and all(isinstance(x, int) and 0 <= x < 4999 for row in res[1] for x in row)
+            exp = "None" if res[0] != "ok" else ("Some %s" % clist([clist([cn(x) for x in row]) for row in res[1]]) if good else "Some [[4999]]")
+            cont = ("Column %s" % clist([zlist([k]) for k in keys])) if form in ("col-f64", "col-f32", "nested") else ("Flat %s" % zlist(keys))
+            frows.append("(%s, %s)" % (cont, exp))
+            frecs.append({"labels": [repr(x) for x in seen], "container": form, "implementation": res})
+            if len(set(seen)) >= 2:
+                fdistinct.add((tuple(seen), form))
+    ctx.sample(frecs[1])
+    mism = coq_compare(ctx, "onehot_float", ONEHOT_EVAL, frows, lambda i: frecs[i])
+    ctx.tie("one_hot_encode/close-float-labels", "correspondence", len(frows), len(fdistinct), mism,
+            note="float label sets with close-but-distinct values (adjacent large ids, adjacent float32 / float64 values, tiny, subnormal, negative, "
+                 "mixed magnitudes) as python list, float64 / float32 ndarray, (n,1) columns, nested list; the floats are handed to the model as exact "
+                 "order-preserving integer keys (IEEE bit pattern), so distinct floats are distinct labels; non-trivial = >= 2 distinct labels")
     # string labels: oracle only (the model is over integers)
     s = ["b", "a", "c", "a"]
     D = _data()
@@ -634,7 +790,24 @@ def part_onehot(ctx):
 
 
 # ------------------------------------------------------------------ the check
+def part_signatures(ctx):
+    """T: regenerate Gen/GenDataSigs.v (signatures of the public entry points, state attributes of DataLoader), self-check vs inspect"""
+    from lib.py2coq import gen_sigs
+    try:
+        G = gen_sigs.generate_data()
+    except Exception as ex:
+        common.write_if_changed(gen_sigs.OUT_DATA, gen_sigs.refusal("data", gen_sigs.DATA, str(ex)))
+        ctx.tie("translator/data.py signatures+state", "translator", 1, 0, [{"untranslatable": str(ex)}],
+                note="the fail-closed signature/state census does not accept the current sources")
+        return
+    n, mism = gen_sigs.selfcheck(G, _data())
+    ctx.tie("translator/data.py signatures+state", "translator", n, n, mism, exhaustive=True,
+            note="every function/method of data.py: parameter names, ORDER, kinds, defaults vs inspect.signature; nothing defined in the module is missing; "
+                 "state attributes: %s" % G["state"])
+
+
 def run(ctx):
+    part_signatures(ctx)
     ok_build, fails = ctx.build_props(extra_targets=["State/Data.vo"])
     f1 = part_split(ctx)
     part_malformed(ctx)
@@ -642,18 +815,22 @@ def run(ctx):
     f3 = part_onehot(ctx)
     # ---- oracle verdicts -> witnesses (smallest first)
     if f1:
-        (n, f, vf, seed), res, v = min(f1, key=lambda t: (t[0][0], t[0][3] is not None, t[0][2] is not None))
-        ctx.witness("nn.utils.data.split_dataset", "partition", {"kind": "split", "n": n, "test_split": f, "val_split": vf, "shuffle_seed": seed},
+        (n, f, vf, seed, sform, call, fform), res, v = min(f1, key=lambda t: (t[0][0], t[0][3] is not None, t[0][2] is not None))
+        ctx.witness("nn.utils.data.split_dataset", "partition",
+                    {"kind": "split", "n": n, "test_split": f, "val_split": vf, "shuffle_seed": seed, "shuffle_argument": sform, "call": call, "fraction_form": fform},
                     "three sets of the floor-rule sizes partitioning the (sample,label) pairs, original order when shuffle is off",
                     {"implementation": res, "verdict": v})
     if f2:
-        (n, b, wt, name, events), (outs, log), v = min(f2, key=lambda t: (t[0][0], t[0][1], t[0][2], len(t[0][4])))
-        ctx.witness("nn.utils.data.DataLoader", "batches", {"kind": "loader", "n": n, "batch_size": b, "transform": wt, "history": name, "events": [list(e) for e in events]},
+        (n, b, wt, name, events, call), (outs, log), v = min(f2, key=lambda t: (t[0][0], t[0][1], t[0][2], len(t[0][4])))
+        ctx.witness("nn.utils.data.DataLoader", "batches", {"kind": "loader", "n": n, "batch_size": b, "transform": wt, "constructor_call": call,
+                                                            "history": name, "events": [list(e) for e in events]},
                     "floor(n/b) consecutive aligned batches of exactly b samples from the start of every loop, transform applied once per batch",
                     {"outputs": outs, "transform_log": log, "verdict": v})
     if f3:
         (labs, arr, scale), res, v = min(f3, key=lambda t: len(t[0][0]))
-        ctx.witness("nn.utils.data.one_hot_encode", "unit-vectors", {"kind": "onehot", "labels": labs, "container": arr, "scale": scale},
+        ctx.witness("nn.utils.data.one_hot_encode", "unit-vectors",
+                    {"kind": "onehot-float", "labels_hex": [float(x).hex() for x in labs], "labels": [repr(x) for x in labs], "container": arr} if scale == "float" else
+                    {"kind": "onehot", "labels": labs, "container": arr, "scale": scale},
                     "row i = unit vector at the index of label i among the sorted distinct labels",
                     {"implementation": res, "verdict": v})
     ctx.extra["oracle_cases_judged"] = {"split": "all split cases", "loader": "all loop-shaped histories", "one_hot": "all label lists"}
@@ -670,13 +847,19 @@ def replay(ctx, data):
         print(json.dumps(data.get("broken"), indent=1)); return 1
     inp = data["input"]
     if inp["kind"] == "split":
-        res = run_split_impl(inp["n"], inp["test_split"], inp["val_split"], inp["shuffle_seed"])
+        res = run_split_impl(inp["n"], inp["test_split"], inp["val_split"], inp["shuffle_seed"], sform=inp.get("shuffle_argument"),
+                             call=inp.get("call", "kw"), fform=inp.get("fraction_form", "float"))
         v = judge_split(inp["n"], inp["test_split"], inp["val_split"], inp["shuffle_seed"], res)
     elif inp["kind"] == "loader":
         ev = [tuple(e) for e in inp["events"]]
-        outs, log = run_loader_impl(inp["n"], inp["batch_size"], inp["transform"], ev)
+        outs, log = run_loader_impl(inp["n"], inp["batch_size"], inp["transform"], ev, inp.get("constructor_call", "kw"))
         res = (outs, log)
         v = judge_loader(inp["n"], inp["batch_size"], inp["transform"], inp["history"], ev, outs, log)
+    elif inp["kind"] == "onehot-float":
+        vals = [float.fromhex(h) for h in inp["labels_hex"]]
+        arg, seen = make_float_labels(vals, inp["container"])
+        res = run_onehot_impl(seen, inp["container"], 1, arg=arg)
+        v = judge_onehot(seen, res)
     elif inp["kind"] == "onehot-str":
         try:
             res = ("ok", [[int(v) for v in r] for r in _data().one_hot_encode(inp["labels"])])
